@@ -15,8 +15,7 @@
 //
 // Input (-in): ndjson schedules {"id","lim","req":{"p1":100,..},"present":["p1",..],"steps":[{"n","p","out"}]}
 // as exported by TLC from spec/Handoff.tla (a step that is not enabled in the real state is skipped and
-// logged with skip=1; a panicking bind attempt on a terminally failed request counts as not enabled unless
-// -panic-terminal is given); or -random N -seed S -len K -pods P: seeded random schedules over the enabled steps.
+// logged with skip=1); or -random N -seed S -len K -pods P: seeded random schedules over the enabled steps.
 // Output (-out): ndjson trace: a Scenario line, then one line per step with the projection of the real
 // stores (`st`), of the real snapshot (`snap`, cycles only) and of the reconcile result (`rec`).
 // Integers and strings only; -1 = nil backoffLimit; quantities in centi-GPU / milli-CPU.
@@ -1141,8 +1140,8 @@ func (w *world) enabled(s step, maxRestarts, maxFlips int) bool {
 		if s.Out == "faillabel" {
 			return w.q[s.P] && w.reach(s.P) && w.sc.Req[s.P] < 100 && w.sc.Nd[s.P] == 2
 		}
-		if s.Out == "panic" { // environment of the model (PanicEnabled in spec/Handoff.tla) unless -panic-terminal
-			return w.q[s.P] && w.reach(s.P) && (*panicTerminal || !w.terminal(s.P))
+		if s.Out == "panic" { // PanicEnabled in spec/Handoff.tla: also on a terminally failed request
+			return w.q[s.P] && w.reach(s.P)
 		}
 		return w.q[s.P]
 	case "BindDoneStatusLost":
@@ -1311,7 +1310,6 @@ func runScenario(sc scenario, pods []string, tw *tracefmt.Writer, rnd *rand.Rand
 	}
 }
 
-var panicTerminal = flag.Bool("panic-terminal", false, "execute a panicking bind attempt also on a terminally failed request (outside the environment of the model)")
 
 func main() {
 	in := flag.String("in", "", "ndjson schedules exported by TLC")
